@@ -548,6 +548,254 @@ def _desugar_combinator(views, f, bid, depth, stack, pending):
     return True
 
 
+# ---- iterator pipelines ending in a Vec -------------------------------------------------------------------------------------------
+# `it.map(C).collect::<Vec<_>>()`, `it.filter_map(C).collect::<Vec<_>>()`, `vec.extend(it.map(C))` and `it.for_each(C)` are rewritten into
+# the loop they abbreviate (the shape rustc gives a `for` loop), with the closure body spliced in:
+#     out = Vec::new();  loop { match Iterator::next(&mut it) { None => break, Some(v) => { r = C(v); out.push(r) } } }
+# Only the exact, single-use pattern is rewritten (the adaptor's result is consumed by the very next call and nowhere else).
+PIPE_ADAPTORS = ("map", "filter_map")
+
+
+def _local_uses(f, local):
+    """number of mentions of `local` in non-cleanup blocks (places, operands, index projections)"""
+    n = 0
+
+    def in_place(p):
+        c = 1 if p["local"] == local else 0
+        for e in p["proj"]:
+            if e["k"] == "index" and e.get("local") == local:
+                c += 1
+        return c
+
+    def in_op(o):
+        if not isinstance(o, dict):
+            return 0
+        pl = o.get("move") or o.get("copy")
+        return in_place(pl) if pl else 0
+    for b in f["blocks"]:
+        if b["cleanup"]:
+            continue
+        for st in b["stmts"]:
+            if st["k"] in ("assign", "setdiscr"):
+                n += in_place(st["place"])
+                rv = st.get("rv") or {}
+                for k, v in rv.items():
+                    if k in ("use", "op", "l", "r", "repeat"):
+                        n += in_op(v)
+                    elif k in ("ref", "rawptr", "discriminant", "len") and isinstance(v, dict) and "local" in v:
+                        n += in_place(v)
+                    elif k == "ops":
+                        n += sum(in_op(o) for o in v)
+        t = b["term"]
+        if t["k"] in ("call", "tailcall"):
+            n += sum(in_op(a) for a in t["args"])
+            if t["k"] == "call":
+                n += in_place(t["dest"])
+        elif t["k"] == "switch":
+            n += in_op(t["discr"])
+        elif t["k"] == "drop":
+            n += in_place(t["place"])
+        elif t["k"] == "assert":
+            n += in_op(t["cond"])
+    return n
+
+
+def _preds_of(f, bid):
+    return [b["id"] for b in f["blocks"] if not b["cleanup"] and bid in _succs(b["term"])]
+
+
+def _dup_tails(f, region, retloc, stop_ids):
+    """tail duplication: when `retloc` (a spliced closure's result) is assigned at several sites that all flow into the blocks `stop_ids`
+    (the synthetic consumer), give every site after the first its own copy of the way there, so that the consumer sees one definition"""
+    blocks = f["blocks"]
+    region = set(region) | set(stop_ids)
+    sites = []
+    for bid in sorted(region):
+        bl = blocks[bid]
+        if bl["cleanup"] or bid in stop_ids:
+            continue
+        hit = any(st["k"] == "assign" and not st["place"]["proj"] and st["place"]["local"] == retloc for st in bl["stmts"])
+        tm = bl["term"]
+        if tm["k"] == "call" and not tm["dest"]["proj"] and tm["dest"]["local"] == retloc:
+            hit = True
+        if hit:
+            sites.append(bid)
+    for site in sites[1:]:
+        tail = set()
+        stack = list(_succs(blocks[site]["term"]))
+        while stack:
+            x = stack.pop()
+            if x in tail or x not in region:
+                continue
+            tail.add(x)
+            if x not in stop_ids or any(y in stop_ids for y in _succs(blocks[x]["term"])):
+                stack.extend(y for y in _succs(blocks[x]["term"]) if y in region)
+        if not tail or any(x in tail for x in sites):
+            continue
+        mapping = {}
+        for x in sorted(tail):
+            mapping[x] = len(blocks) + len(mapping)
+        for x in sorted(tail):
+            ob = blocks[x]
+            nb = copy.deepcopy(ob)
+            nb["id"] = mapping[x]
+            nb["orig_bb"] = ob.get("orig_bb") or [f.get("_name", "?"), x]
+            nb["dup"] = True
+            nb["term"] = _retarget(ob["term"], mapping)
+            blocks.append(nb)
+        blocks[site]["term"] = _retarget(blocks[site]["term"], mapping)
+
+
+ALIAS_CALLS = {"deref", "as_str", "as_ref", "borrow", "clone", "to_owned", "to_string", "into", "from", "as_bytes", "as_slice", "as_deref", "cloned", "copied"}
+
+
+def _alias_mapper(c):
+    """the closure only re-borrows / copies its argument (no control flow, no call other than view/copy conversions)"""
+    n = 0
+    for b in c["blocks"]:
+        if b["cleanup"]:
+            continue
+        t = b["term"]
+        if t["k"] == "switch":
+            return False
+        if t["k"] in ("call", "tailcall"):
+            if t.get("resolved_local") or t.get("name") not in ALIAS_CALLS:
+                return False
+            n += 1
+    return n <= 2
+
+
+def _desugar_pipeline(views, f, bid, depth, stack):
+    """block `bid` ends in `m = Iterator::map|filter_map(move it, move closure) -> B`; B is `dest = Iterator::collect(move m)` into a Vec,
+    `Extend::extend(move &mut vec, move m)` on a Vec, or (bid itself) `Iterator::for_each(move it, move closure)`."""
+    b = f["blocks"][bid]
+    t = b["term"]
+    nm = t.get("name")
+    if t.get("trait") != "std::iter::Iterator" or t.get("target") is None or len(t["args"]) != 2 or t["dest"]["proj"]:
+        return False
+    if nm not in PIPE_ADAPTORS and nm != "for_each":
+        return False
+    cop = t["args"][1]
+    cpl = cop.get("move") or cop.get("copy")
+    if not cpl or cpl["proj"]:
+        return False
+    cname = _closure_def_of(f, cpl["local"])
+    if cname is None or cname not in views.raw or cname in stack:
+        return False
+    line = t.get("line")
+    mk = lambda place, rv: {"k": "assign", "place": place, "rv": rv, "line": line, "exp": None, "synth": True}
+    pl = lambda l, proj=(): {"local": l, "proj": list(proj)}
+    sink = None   # ("new", vec_local, vec_ty, after) | ("extend", ref_operand, vec_ty, after) | ("none", None, None, after)
+    if nm == "for_each":
+        sink = ("none", None, None, t["target"])
+        B = None
+    else:
+        m = t["dest"]["local"]
+        B = f["blocks"][t["target"]]
+        bt = B["term"]
+        if B["cleanup"] or bt["k"] != "call" or bt.get("target") is None or _preds_of(f, B["id"]) != [bid] or _local_uses(f, m) != 2:
+            return False
+        if any(st["k"] == "assign" for st in B["stmts"]):
+            return False
+        if bt.get("name") == "collect" and bt.get("trait") == "std::iter::Iterator" and len(bt["args"]) == 1 and (bt["args"][0].get("move") or {}).get("local") == m \
+                and not bt["dest"]["proj"] and (f["locals"][bt["dest"]["local"]]["ty"] or "").startswith("std::vec::Vec<"):
+            sink = ("new", bt["dest"]["local"], f["locals"][bt["dest"]["local"]]["ty"], bt["target"])
+        elif bt.get("name") == "extend" and bt.get("trait") == "std::iter::Extend" and len(bt["args"]) == 2 and (bt["args"][1].get("move") or {}).get("local") == m \
+                and (bt.get("self_ty") or "").startswith("std::vec::Vec<"):
+            rop = bt["args"][0]
+            rpl = rop.get("move") or rop.get("copy")
+            if not rpl or rpl["proj"]:
+                return False
+            sink = ("extend", rpl["local"], bt.get("self_ty"), bt["target"])
+        else:
+            return False
+    if _alias_mapper(views.raw[cname]):
+        return False  # `.map(|s| s.as_str())`: the adaptor is an alias of the source sequence, not a loop worth spelling out
+    h = views.get(cname, depth + 1, stack + (f.get("_name"),))
+    if len(h["locals"]) < 3 or h.get("arg_count") != 2 or len(f["blocks"]) + len(h["blocks"]) + 8 > MAX_VIEW_BLOCKS:
+        return False
+    kind, vec, vec_ty, after = sink
+    it_ty = t.get("self_ty") or "?"
+    # the iterator state lives in one local for the whole loop
+    iop = t["args"][0]
+    ipl = iop.get("move")
+    pre = []
+    if ipl and not ipl["proj"]:
+        I = ipl["local"]
+    else:
+        I = _new_local(f, it_ty, "pipeline-iter")
+        pre.append(mk(pl(I), {"use": iop}))
+    item_ty = h["locals"][2]["ty"]
+    o = _new_local(f, "std::option::Option<%s>" % item_ty, "pipeline-next")
+    d = _new_local(f, "isize", "pipeline-discr")
+    v = _new_local(f, item_ty, "pipeline-item")
+    r = _new_local(f, h["locals"][0]["ty"], "pipeline-result")
+    ri = _new_local(f, "&mut " + it_ty, "pipeline-iter-ref")
+    unit = _new_local(f, "()", "pipeline-unit")
+    call_base = {"k": "call", "unwind": t.get("unwind"), "line": line, "exp": None, "synth": True, "gargs": [], "callee_local": False, "resolved_local": False,
+                 "instance_kind": "Item", "ret_never": False}
+    # exit block
+    X = _new_block(f, [], {"k": "goto", "target": after, "line": line, "exp": None}, "pipeline-exit")
+    U = _new_block(f, [], {"k": "unreachable", "line": line, "exp": None}, "pipeline-unreachable")
+    # header: o = Iterator::next(&mut I)
+    H = _new_block(f, [mk(pl(ri), {"ref": pl(I), "mut": True})], None, "pipeline-header")
+    S = _new_block(f, [mk(pl(d), {"discriminant": pl(o)})], None, "pipeline-dispatch")
+    f["blocks"][H]["term"] = dict(call_base, callee="std::iter::Iterator::next", name="next", trait="std::iter::Iterator", self_ty=it_ty, self_adt=None,
+                                  resolved="<%s as std::iter::Iterator>::next" % it_ty.split("<")[0], callee_crate="core", resolved_crate="core",
+                                  args=[{"move": pl(ri)}], dest=pl(o), target=S, exp="desugar:ForLoop")
+    # consumer of the closure's result
+    if kind == "none":
+        P_entry, stops = H, []
+    else:
+        ro = _new_local(f, "&mut " + vec_ty, "pipeline-out-ref")
+        ref_stmt = mk(pl(ro), {"ref": pl(vec), "mut": True}) if kind == "new" else mk(pl(ro), {"ref": pl(vec, [{"k": "deref"}]), "mut": True})
+        push = lambda valop: dict(call_base, callee="std::vec::Vec::<T, A>::push", name="push", trait=None, self_ty=vec_ty, self_adt="std::vec::Vec",
+                                  resolved="std::vec::Vec::<T, A>::push", callee_crate="alloc", resolved_crate="alloc", args=[{"move": pl(ro)}, valop], dest=pl(unit), target=H)
+        if nm == "map":
+            P = _new_block(f, [ref_stmt], push({"move": pl(r)}), "pipeline-push")
+            P_entry, stops = P, [P]
+        else:
+            d2 = _new_local(f, "isize", "pipeline-discr2")
+            r2 = _new_local(f, "?", "pipeline-some")
+            P1 = _new_block(f, [mk(pl(r2), {"use": {"move": pl(r, [{"k": "downcast", "variant": "Some", "idx": 1}, {"k": "field", "idx": 0, "name": "0", "adt": "std::option::Option"}])}}), ref_stmt],
+                            push({"move": pl(r2)}), "pipeline-push")
+            P0 = _new_block(f, [mk(pl(d2), {"discriminant": pl(r)})], {"k": "switch", "discr": {"move": pl(d2)}, "targets": [[1, P1]], "otherwise": H, "line": line, "exp": "desugar:Pipeline"},
+                            "pipeline-filter")
+            P_entry, stops = P0, [P0, P1]
+    # body: r = C(&mut c, v)
+    cty = h["locals"][1]["ty"] or ""
+    bstm = [mk(pl(v), {"use": {"move": pl(o, [{"k": "downcast", "variant": "Some", "idx": 1}, {"k": "field", "idx": 0, "name": "0", "adt": "std::option::Option"}])}})]
+    carg = {"copy": pl(cpl["local"])}
+    if cty.startswith("&"):
+        rc = _new_local(f, cty, "pipeline-closure-ref")
+        bstm.append(mk(pl(rc), {"ref": pl(cpl["local"]), "mut": cty.startswith("&mut")}))
+        carg = {"move": pl(rc)}
+    call = dict(call_base, callee=cname, name="call_mut", resolved=cname, resolved_local=True, args=[carg, {"move": pl(v)}], dest=pl(r), target=P_entry,
+                trait=None, self_ty=None, self_adt=None)
+    Bd = _new_block(f, bstm, call, "pipeline-body")
+    f["blocks"][S]["term"] = {"k": "switch", "discr": {"move": pl(d)}, "targets": [[0, X], [1, Bd]], "otherwise": U, "line": line, "exp": "desugar:ForLoop"}
+    # entry: replace the adaptor call
+    b["desugared_call"] = t
+    b["stmts"] = list(b["stmts"]) + pre
+    if kind == "new":
+        b["term"] = dict(call_base, callee="std::vec::Vec::<T>::new", name="new", trait=None, self_ty=vec_ty, self_adt="std::vec::Vec", resolved="std::vec::Vec::<T>::new",
+                         callee_crate="alloc", resolved_crate="alloc", args=[], dest=pl(vec), target=H)
+    else:
+        b["term"] = {"k": "goto", "target": H, "line": line, "exp": None}
+    if B is not None:
+        B["desugared_call"] = B["term"]
+        B["stmts"] = []
+        B["term"] = {"k": "unreachable", "line": line, "exp": None}
+    first_new = len(f["blocks"])
+    _splice(f, Bd, h, cname, thread=False)
+    if stops:
+        try:
+            _dup_tails(f, range(first_new, len(f["blocks"])), r, stops)
+        except Exception:
+            pass
+    return True
+
+
 class Views:
     """lazy per-function inlined views over a dict of raw function facts"""
 
@@ -571,6 +819,13 @@ class Views:
                 if tt["k"] == "call" and (tt.get("self_adt"), tt.get("name")) in COMBINATORS and not f["blocks"][bid]["cleanup"]:
                     try:
                         _desugar_combinator(self, f, bid, depth, stack, pending)
+                    except Exception:
+                        pass
+            for bid in own_ids:
+                tt = f["blocks"][bid]["term"]
+                if tt["k"] == "call" and tt.get("trait") == "std::iter::Iterator" and tt.get("name") in PIPE_ADAPTORS + ("for_each",) and not f["blocks"][bid]["cleanup"]:
+                    try:
+                        _desugar_pipeline(self, f, bid, depth, stack)
                     except Exception:
                         pass
             # thread re-dispatches on combinator results, innermost (latest) first so that chained combinators compose
